@@ -464,6 +464,12 @@ func init() {
 		}
 		ptrs := c11Pointers(p)
 		var out []string
+		// an explicit load under another relation id before every read: on the persistent reader the chunk map is
+		// written while other calls (other goroutines in Concurrent) read it
+		if raw, ok := st.env.files["base/"+p[0]+"/"+p[1]]; ok {
+			rel, _ := strconv.ParseUint(p[1], 10, 32)
+			rd.LoadTOASTTable(uint32(rel)+1000+uint32(rep), append([]byte(nil), raw...))
+		}
 		for _, q := range ptrs {
 			snap := append([]byte(nil), q...)
 			v := rd.ReadValue(q)
@@ -723,58 +729,67 @@ func init() {
 		for i, s := range specs {
 			base[i], _ = c11Ops[s.name](&c11State{env: env}, s.param, 0)
 		}
-		// ONE state shared by all goroutines: one set of input buffers, one client, one TOAST reader
-		shared := &c11State{env: env}
-		shared.bufs = env.buffers()
-		shared.client = pgdump.NewRemoteClient(shared.bufs.reader())
-		for _, s := range specs {
-			if s.name == "toast_read" {
-				db, _ := strconv.ParseUint(c11Split(s.param)[0], 10, 32)
-				shared.reader = pgdump.NewTOASTReaderForDB(env.dir, uint32(db))
-			}
-		}
-		shared.scan = pgdump.NewSecretScanner()
 		var mu sync.Mutex
 		bad := ""
-		var wg sync.WaitGroup
-		for g := 0; g < ng; g++ {
-			wg.Add(1)
-			go func(g int) {
-				defer wg.Done()
-				defer func() {
-					if r := recover(); r != nil {
-						mu.Lock()
-						if bad == "" {
-							bad = "panic"
-						}
-						mu.Unlock()
-					}
-				}()
-				rng := rand.New(rand.NewSource(seed*1000 + int64(g)))
-				for i := 0; i < iters; i++ {
-					k := rng.Intn(len(specs))
-					// odd repetition index: the operation uses the SHARED client / reader
-					out, _ := c11Ops[specs[k].name](shared, specs[k].param, 1)
-					if out != base[k] {
-						mu.Lock()
-						if bad == "" {
-							bad = specs[k].name
-						}
-						mu.Unlock()
-						return
-					}
+		// three rounds, each with a NEW shared state (the caches are filled at the start of a round, by whichever
+		// goroutines get there first): one set of input buffers, one client, one TOAST reader, one scanner
+		for round := 0; round < 3 && bad == ""; round++ {
+			shared := &c11State{env: env}
+			shared.bufs = env.buffers()
+			shared.client = pgdump.NewRemoteClient(shared.bufs.reader())
+			for _, s := range specs {
+				if s.name == "toast_read" {
+					db, _ := strconv.ParseUint(c11Split(s.param)[0], 10, 32)
+					shared.reader = pgdump.NewTOASTReaderForDB(env.dir, uint32(db))
 				}
-			}(g)
+			}
+			shared.scan = pgdump.NewSecretScanner()
+			start := make(chan struct{})
+			var wg sync.WaitGroup
+			for g := 0; g < ng; g++ {
+				wg.Add(1)
+				go func(g int) {
+					defer wg.Done()
+					defer func() {
+						if r := recover(); r != nil {
+							mu.Lock()
+							if bad == "" {
+								bad = "panic"
+							}
+							mu.Unlock()
+						}
+					}()
+					rng := rand.New(rand.NewSource(seed*1000 + int64(round)*100 + int64(g)))
+					<-start
+					for i := 0; i < iters; i++ {
+						k := rng.Intn(len(specs))
+						// odd repetition index: the operation uses the SHARED client / reader
+						out, _ := c11Ops[specs[k].name](shared, specs[k].param, 1)
+						if out != base[k] {
+							mu.Lock()
+							if bad == "" {
+								bad = specs[k].name
+							}
+							mu.Unlock()
+							return
+						}
+					}
+				}(g)
+			}
+			close(start)
+			wg.Wait()
+			if bad == "" && !shared.bufs.unchanged() {
+				bad = "\x00mutated"
+			}
 		}
-		wg.Wait()
 		if bad == "panic" {
 			return "panic"
 		}
+		if bad == "\x00mutated" || !env.diskUnchanged() {
+			return "MUTATED-INPUT:concurrent"
+		}
 		if bad != "" {
 			return "nondeterministic:" + bad
-		}
-		if !shared.bufs.unchanged() || !env.diskUnchanged() {
-			return "MUTATED-INPUT:concurrent"
 		}
 		return "deterministic"
 	})
